@@ -668,6 +668,9 @@ def run_penalty(case, ctx):
 
 
 # =========================================================================== registration
+# libFuzzer executions per shard and @given test of the coverage-guided extra of the thorough tier (vp/fuzz.py)
+FUZZ = 2000
+
 TESTS = [
     Test('comb', run_comb, strategy=lambda tier: comb_cases(tier),
          examples={'quick': 20000, 'thorough': 600000}),
